@@ -7,6 +7,7 @@ import (
 	"crypto/rsa"
 	"crypto/sha256"
 	"crypto/sha512"
+	"encoding/asn1"
 	"encoding/hex"
 	"fmt"
 	"hash"
@@ -372,6 +373,28 @@ func c13Mutants(r *rand.Rand, base c13Case, s1 s1Raw, payload cbor.RawBytes, k s
 			m.Signature = append(append([]byte{}, s1.Signature...), make([]byte, n-len(s1.Signature))...)
 		}
 		add("sig-length", true, func(c *c13Case) { c.enc = reencode(m) })
+	}
+	// the same numbers in another width: each half (r, s) of an ECDSA signature, or an RSA signature,
+	// with leading zero bytes is not the fixed-width encoding and must not verify
+	for _, pad := range []int{1, 2, 8, 16} {
+		m := s1
+		z := make([]byte, pad)
+		if strings.HasPrefix(k.name, "ES") {
+			h := len(s1.Signature) / 2
+			m.Signature = append(append(append(append([]byte{}, z...), s1.Signature[:h]...), z...), s1.Signature[h:]...)
+		} else {
+			m.Signature = append(append([]byte{}, z...), s1.Signature...)
+		}
+		add("sig-zero-padded", true, func(c *c13Case) { c.enc = reencode(m) })
+	}
+	if strings.HasPrefix(k.name, "ES") {
+		h := len(s1.Signature) / 2
+		der, err := asn1.Marshal(struct{ R, S *big.Int }{new(big.Int).SetBytes(s1.Signature[:h]), new(big.Int).SetBytes(s1.Signature[h:])})
+		if err == nil {
+			m := s1
+			m.Signature = der
+			add("sig-der-encoded", true, func(c *c13Case) { c.enc = reencode(m) })
+		}
 	}
 	// detached/attached confusion
 	if base.detached == nil {
